@@ -16,7 +16,9 @@ static std::string key_of(uint64_t id, const std::vector<std::string>& shapes) {
 	if (id < shapes.size()) return shapes[id]; id -= shapes.size();
 	if (id == 0) return ""; id -= 1;
 	if (id < 256) return std::string(1, (char)id); id -= 256;
-	std::string s(2, '\0'); s[0] = (char)(id >> 8); s[1] = (char)(id & 255); return s;
+	if (id < 65536) { std::string s(2, '\0'); s[0] = (char)(id >> 8); s[1] = (char)(id & 255); return s; } id -= 65536;
+	static const unsigned char third[4] = { 0x00, 0x55, 0xAA, 0xFF };
+	std::string s(3, '\0'); s[0] = (char)(id >> 10); s[1] = (char)((id >> 2) & 255); s[2] = (char)third[id & 3]; return s;   // three-byte keys, third byte from a 4-value set
 }
 
 // Table 6.1.1 rules, checked directly on the repository's program object
@@ -130,9 +132,10 @@ int main(int argc, char** argv) {
 		std::string d = check_key(std::string((const char*)k.data(), k.size()), nat, rv, R, gs, true);
 		printf("replay: %s\n", d.empty() ? "conformant" : d.c_str()); return d.empty() ? 0 : 1;
 	}
-	uint64_t nkeys = shapes.size() + 1 + 256 + (th ? 65536 : 0);
+	// every tier generates and compares the programs of ALL 65536 two-byte keys (a generator slip that needs a rare coincidence shows in
+	// about 1 key out of several thousand, seeded change agent5_C09); native execution runs on a subset; thorough adds 262144 three-byte keys
+	uint64_t nkeys = shapes.size() + 1 + 256 + 65536 + (th ? 262144 : 0);
 	std::vector<uint64_t> ids; for (uint64_t i = 0; i < nkeys; ++i) ids.push_back(i);
-	if (!th) for (int hi = 0; hi < 256; ++hi) for (int lo : { 0x00, 0x11, 0x22, 0x33, 0x44, 0x55, 0x66, 0x77, 0x80, 0x99, 0xAA, 0xBB, 0xCC, 0xDD, 0xEE, 0xFF }) ids.push_back(shapes.size() + 257 + hi * 256 + lo);
 	const int nsh = 64;
 	vf::Result total = vf::run_shards(args, nsh, [&](int shard) {
 		vf::Result R; spec::GenStats gs; Native nat;
@@ -140,7 +143,7 @@ int main(int argc, char** argv) {
 			if (args.expired()) { R.incomplete = true; break; }
 			std::string key = key_of(ids[i], shapes);
 			vf::set_current(vf::Json::obj().set("rxkey", vf::hex(key.data(), key.size())).dump());
-			bool native = !th || (i % 8 == (size_t)shard % 8) || ids[i] < shapes.size() + 257;   // thorough: native execution on every 8th 2-byte key (all programs are still generated and compared)
+			bool native = ids[i] < shapes.size() + 257 || (th ? (ids[i] < shapes.size() + 257 + 65536 && i % 8 == (size_t)shard % 8) : ((ids[i] - shapes.size() - 257) % 17 == 0 && ids[i] < shapes.size() + 257 + 65536));   // native execution: shapes, one-byte keys, every 17th (quick) / 8th (thorough) two-byte key
 			std::string d = check_key(key, nat, rv, R, gs, native);
 			R.n["keys"]++;
 			if (i < 3) R.sample(vf::Json::obj().set("rxkey", vf::hex(key.data(), key.size())).set("programs", 8), 2);
@@ -156,7 +159,7 @@ int main(int argc, char** argv) {
 	for (const char* p : { "path_thrown_away", "path_stall_cycles", "path_r5_source_rule", "path_mul_port_saturation", "path_size_cap", "path_chained_mul", "path_group_aborted", "path_port_map_exhausted" }) if (total.n[p] == 0) never.push(p);
 	ev.coverage.set("evaluations", (unsigned long long)(total.n["programs"] + total.n["executions"])).set("distinct_nontrivial", (unsigned long long)total.n["programs"])
 		.set("exhaustive", !total.incomplete).set("generator_paths_never_reached", never)
-		.set("rule", "keys: the key-shape alphabet, the empty key, all 256 one-byte keys and (thorough) all 65536 two-byte keys (quick: 4096 of them); for each of the 8 programs of a key: generation terminates, Table 6.1.1 well-formedness checked on the repository's program object, every field and the address register equal the specification generator; executeSuperscalar == x86 code generated by generateSuperscalarHash (program under test first, seven empty programs, all-zero cache image so the interleaved XORs are identities, one reciprocal table per key filled across its 8 programs as initCache does, entered through a trampoline that loads r8-r15) == model executor on the register-vector alphabet. distinct = programs");
+		.set("rule", "keys: the key-shape alphabet, the empty key, all 256 one-byte keys, all 65536 two-byte keys and (thorough) 262144 three-byte keys; for each of the 8 programs of a key: generation terminates, Table 6.1.1 well-formedness checked on the repository's program object, every field and the address register equal the specification generator; executeSuperscalar == x86 code generated by generateSuperscalarHash (program under test first, seven empty programs, all-zero cache image so the interleaved XORs are identities, one reciprocal table per key filled across its 8 programs as initCache does, entered through a trampoline that loads r8-r15) == model executor on the register-vector alphabet (native execution for the shapes, the one-byte keys and every 17th / 8th two-byte key). distinct = programs");
 	ev.assumptions = { "chapter 6 under-specifies the order of random-number consumption; the model generator is a second implementation frozen in /verif (it detects changes, it cannot certify the generator against prose)", "keys reach the generator only through Blake2b, so the key set is a large deterministic population, not a partition proof" };
 	return vf::finish(args, total, ev, true, true);
 }
